@@ -167,6 +167,7 @@ type FuncResult struct {
 	Obls        []*Obl
 	Decls       []string
 	Facts       []*T
+	FactScopes  [][]int
 	Errors      []string
 	Drift       []string
 	Unmodelled  []string
@@ -415,6 +416,7 @@ func verifyFuncBeh(prog *Program, key string, beh *Behavior) (res *FuncResult) {
 		}
 	}
 	res.Facts = ex.facts
+	res.FactScopes = ex.factScopes
 	res.Errors = dedupe(ex.errs)
 	res.Drift = append(res.Drift, ex.drift...)
 	for _, cc := range fc.Callsites {
@@ -497,29 +499,57 @@ func (r *FuncResult) symbolsOf(t *T) map[string]bool {
 
 // queryMode renders the query. In local mode a quantified fact is kept only if it shares a declared symbol with
 // the goal (dropping assumptions is sound; a second, complete attempt follows when the local one is not decisive).
+// byteFree reports whether a goal does not talk about byte contents at all.
+func byteFree(o *Obl) bool {
+	g := o.Goal.str
+	return !strings.Contains(g, "memB") && !strings.Contains(g, "atB") && !strings.Contains(g, "bytesEq") && !strings.Contains(g, "cid ")
+}
+
+var preludeNoBytes = func() string {
+	// the prelude without the quantified byte-level axioms (memB range, bytesEq elimination/introduction, cid, catS)
+	var out []string
+	skip := false
+	for _, ln := range strings.Split(prelude, "\n") {
+		if strings.HasPrefix(ln, "(assert (forall") {
+			skip = strings.Contains(ln, "memB") || strings.Contains(ln, "bytesEq") || strings.Contains(ln, "catS")
+		} else if strings.HasPrefix(ln, "(") {
+			skip = false
+		}
+		if skip {
+			continue
+		}
+		out = append(out, ln)
+	}
+	return strings.Join(out, "\n")
+}()
+
 func (r *FuncResult) queryMode(o *Obl, withModel, local bool) string {
 	var sb strings.Builder
-	sb.WriteString(prelude)
+	if local {
+		sb.WriteString(preludeNoBytes)
+	} else {
+		sb.WriteString(prelude)
+	}
 	for _, d := range r.Decls {
 		sb.WriteString(d)
 		sb.WriteByte('\n')
 	}
-	var goalSyms map[string]bool
-	if local {
-		goalSyms = r.symbolsOf(o.Goal)
-	}
-	for _, f := range r.Facts[:o.NFacts] {
-		if local && strings.Contains(f.str, "(forall ") {
-			keep := false
-			for s := range r.symbolsOf(f) {
-				if goalSyms[s] {
-					keep = true
+	for fi, f := range r.Facts[:o.NFacts] {
+		// facts assumed inside a loop body only concern states that went through that body
+		if fi < len(r.FactScopes) {
+			skip := false
+			for _, sc := range r.FactScopes[fi] {
+				if !o.Scopes[sc] {
+					skip = true
 					break
 				}
 			}
-			if !keep {
+			if skip {
 				continue
 			}
+		}
+		if local && strings.Contains(f.str, "(forall ") && (strings.Contains(f.str, "memB") || strings.Contains(f.str, "atB") || strings.Contains(f.str, "bytesEq")) {
+			continue
 		}
 		sb.WriteString("(assert ")
 		sb.WriteString(f.String())
